@@ -87,6 +87,13 @@ Template(name) ==
                    O("direction", "B", "A"), O("direction", "B", "C"), O("direction", "B", "D"), O("distance", "B", "D"),
                    O("direction", "C", "A"), O("direction", "C", "B"), O("direction", "C", "D")>>,
         opt |-> <<O("distance", "C", "D"), O("azimuth", "A", "B"), A3("D", "A", "B")>>]
+    [] name = "vecmix3d" ->        \* vectors between pairs of new points come first (their unknowns are numbered x, x, y, y, z, z),
+                                   \* slope distances make the problem non-linear
+       [dim |-> 3,
+        pts |-> <<P("F", 0, 0, 0, "fix"), P("A", 300, 400, 10, "unk"), P("B", 700, 100, 30, "unk"), P("C", 200, -500, -20, "unk"), P("D", -400, 300, 15, "unk")>>,
+        mand |-> <<O("vector", "A", "B"), O("vector", "C", "D"), O("vector", "F", "A"), O("vector", "B", "C"),
+                   O("s-distance", "F", "B"), O("s-distance", "F", "C"), O("s-distance", "F", "D")>>,
+        opt |-> <<O("s-distance", "A", "C"), O("s-distance", "A", "D"), O("dh", "B", "D"), O("vector", "D", "A")>>]
     [] name = "freevec3d" ->       \* free 3-D network of GNSS vectors (defect 3: translations); the first vector joins two new points
        [dim |-> 3,
         pts |-> <<P("A", 100, 200, 50, "unk"), P("B", 400, 600, 80, "unk"), P("C", 700, 200, 20, "unk"), P("D", 400, 200, 60, "unk"), P("E", 900, 700, 35, "unk")>>,
@@ -148,7 +155,8 @@ EditsOf(kind) ==
     [] kind = "SetConfPr" -> {[k |-> "SetConfPr", p |-> p] : p \in {500, 900, 990, 999}}          \* per mille
     [] kind = "SetCovBand" -> {[k |-> "SetCovBand", band |-> b] : b \in {-1, 0, 1, 3, 100}}
     [] kind = "OmitApprox" -> {[k |-> "OmitApprox", s |-> s] : s \in 1..3}
-    [] kind = "PerturbApprox" -> {[k |-> "PerturbApprox", mm |-> d] : d \in {30, 100}}   \* well inside tol-abs = 1000 mm
+    [] kind = "PerturbApprox" -> {[k |-> "PerturbApprox", mm |-> d] : d \in {30, 100, 600}}   \* 30, 100: well inside tol-abs = 1000 mm;
+                                                                                            \* 600: tol-abs is raised, several linearization iterations are needed
     [] kind = "ExportReimport" -> {[k |-> "ExportReimport", rounds |-> r] : r \in 1..3}
     [] kind = "ChangeDatum" -> {[k |-> "ChangeDatum", s |-> s] : s \in 1..5}
     [] kind = "AddConsistentObs" -> {[k |-> "AddConsistentObs", s |-> s] : s \in 1..3}
@@ -210,11 +218,12 @@ Applicable(e) ==
   /\ (e.k = "Isolate" => net.t \in {"tri2d", "dist2d", "polar3d"})
   /\ (e.k = "ChangeDatum" => net.t \in FreeTemplates)
   /\ (e.k = "AddConsistentObs" => net.noise = 0)
-  /\ (e.k \in {"OmitApprox", "PerturbApprox"} => net.noise = 0 /\ net.t \notin FreeTemplates)    \* the datum of a free network is defined by its approximate coordinates
+  /\ (e.k = "OmitApprox" => net.noise = 0 /\ net.t \notin FreeTemplates)
+  /\ (e.k = "PerturbApprox" => net.t \notin FreeTemplates)    \* the datum of a free network is defined by its approximate coordinates
   /\ (e.k = "AttachHeights" => net.t \in {"polar3d", "fstat3d"} /\ net.noise = 0)
-  /\ (e.k = "RotateCircle" => net.t \notin {"lev1d", "vec3d", "freevec3d", "freelev1d"})
+  /\ (e.k = "RotateCircle" => net.t \notin {"lev1d", "vec3d", "vecmix3d", "freevec3d", "freelev1d"})
   /\ (e.k = "MirrorAxes" => net.t \notin {"lev1d", "freelev1d"})
-  /\ (e.k = "SwitchUnits" => net.t \notin {"lev1d", "vec3d", "freevec3d", "freelev1d"})
+  /\ (e.k = "SwitchUnits" => net.t \notin {"lev1d", "vec3d", "vecmix3d", "freevec3d", "freelev1d"})
 
 HashEdit(e) == Len(e.k) * 11 + (IF "s" \in DOMAIN e THEN e.s * 7 ELSE 0) + (IF "w" \in DOMAIN e THEN e.w % 89 ELSE 0)
                + (IF "axes" \in DOMAIN e THEN (IF e.axes \in {"ne", "sw", "es", "wn"} THEN 2 ELSE 5) + (IF e.axes \in {"ne", "en", "se", "es"} THEN 1 ELSE 0) ELSE 0)
